@@ -17,6 +17,9 @@ def run(tier):
     if chk.violations:
         return chk.finish()
     rep = sweep(chk, "bessel", [tb.out_path, tw.out_path, sp.out_path], 3 if tier == "quick" else 80)
+    chk.cov["bessel_argument_classes"] = rep.get("bessel_classes", [])
+    if len(rep.get("bessel_classes", [])) < 11:
+        raise ToolError("vacuity: the argument classes of Special.tla (BesselClasses) were not all swept: %d" % len(rep.get("bessel_classes", [])))
     report_known(chk, rep, "C14")
     par = run_harness("hcore", ["bessel-parity", "--seed", str(seed()), "--samples", "300" if tier == "quick" else "20000"])
     chk.cov["evaluations"] += par["evaluations"]
